@@ -2,7 +2,7 @@
 # seed_verify.sh <seed-id> <worktree> <demo_test_file.rs> : confirm a seeded change myself and store it under /verif/seeded/<id>
 # (1) patch applies to a clean checkout of /repo HEAD, (2) suite passes with it, (3) demo fails with it, (4) demo passes without it
 set -u
-ID=$1; WT=$2; DEMO=$3
+ID=$1; WT=$2; DEMO=$3; PKG=${4:-conformance-tests}
 OUT=/verif/seeded/$ID; mkdir -p $OUT
 export CARGO_TARGET_DIR=$WT/target CARGO_NET_OFFLINE=true
 cd $WT || exit 2
@@ -17,11 +17,11 @@ BASE=$(git -C /repo rev-parse HEAD); git checkout -q --detach $BASE 2>/dev/null
 echo "base=$BASE" > $OUT/verify.log
 git apply --check $OUT/patch.diff >> $OUT/verify.log 2>&1 || { echo "PATCH-DOES-NOT-APPLY" | tee -a $OUT/verify.log; exit 1; }
 # demo without change
-cp $OUT/$DEMO conformance-tests/tests/$DEMO
-cargo test -p conformance-tests --test $T --offline > $OUT/demo_without.log 2>&1; R0=$?
+cp $OUT/$DEMO $PKG/tests/$DEMO
+cargo test -p $PKG --test $T --offline > $OUT/demo_without.log 2>&1; R0=$?
 git apply $OUT/patch.diff
-cargo test -p conformance-tests --test $T --offline > $OUT/demo_with.log 2>&1; R1=$?
-rm conformance-tests/tests/$DEMO
+cargo test -p $PKG --test $T --offline > $OUT/demo_with.log 2>&1; R1=$?
+rm $PKG/tests/$DEMO
 cargo test --workspace --no-fail-fast --offline > $OUT/suite_with.log 2>&1; R2=$?
 P=$(grep -E "^test result" $OUT/suite_with.log | awk '{p+=$4;f+=$6} END{print p" passed "f" failed"}')
 echo "demo_without_change exit=$R0 (want 0); demo_with_change exit=$R1 (want !=0); suite_with_change exit=$R2 ($P) (want 0)" | tee -a $OUT/verify.log
